@@ -176,6 +176,11 @@ structure AtomRec where
 structure BondRec where
   get : BField → MVal
 
+/-- an atom from its nine field values in the order of `AField.all` (missing ones are `None`) -/
+def AtomRec.ofList (vs : List MVal) : AtomRec := ⟨fun f => vs.getD (AField.all.idxOf f) .nil⟩
+/-- a bond from `a1 a2 label btype stereo f_order attrib` -/
+def BondRec.ofList (vs : List MVal) : BondRec := ⟨fun f => vs.getD (BField.all.idxOf f) .nil⟩
+
 def AtomRec.set (a : AtomRec) (f : AField) (v : MVal) : AtomRec :=
   ⟨fun g => if g = f then v else a.get g⟩
 def BondRec.set (b : BondRec) (f : BField) (v : MVal) : BondRec :=
